@@ -19,6 +19,7 @@ from ..engine import rule, describe, selftest, Mutant, Twin
 
 REC = 'openmdao/recorders/sqlite_recorder.py'
 RDR = 'openmdao/recorders/sqlite_reader.py'
+RU = 'openmdao/utils/record_util.py'
 CLS = 'SqliteRecorder'
 KINDS = ('driver', 'problem', 'system', 'solver')
 GLOBAL = 'global_iterations'
@@ -45,7 +46,10 @@ describe('C18',
          '_initialize_database and nowhere else; (connect) sqlite3.connect of the recorder keeps implicit transactions and every sqlite3.connect '
          'of recorder, reader and any other module opening a recording permits hot-journal recovery '
          '(no URI mode=ro / immutable=1; computed URIs undecided); (writers) '
-         'no other shipped module executes a writing SQL statement. '
+         'no other shipped module executes a writing SQL statement; (precheck) the validity test the reader '
+         'runs on the raw file before connecting rejects only on existence, size below the 100-byte header '
+         'or the constant 16-byte magic string, never on header fields/file sizes that are transiently '
+         'inconsistent while a commit is being written. '
          'Does not decide: SQLite/OS durability, the window inside the first startup() (DDL autocommits per '
          'statement; the file is unreadable until the first metadata UPDATE commits), pairing of a driver '
          'case with its later driver_derivatives row.',
@@ -1399,6 +1403,137 @@ def connect(repo, out):
                         out.unsure(fn, st, 'transaction mode of the connection is reassigned')
 
 
+# --------------------------------------------------------------------------- C18.precheck
+_SIZE_FUNCS = ('getsize',)
+_EXIST_FUNCS = ('isfile', 'exists', 'is_file')
+MAGIC_LEN = 16      # bytes 0..15 of a database file never change; everything after them does during a commit
+MIN_HEADER = 100
+
+
+def _prechecks(repo):
+    """Module-level functions that SqliteCaseReader.__init__ runs on the file names before connecting."""
+    fn = repo.func(RDR, 'SqliteCaseReader.__init__')
+    m = fn.module
+    out = {}
+    for c in astx.calls(fn.node):
+        if not isinstance(c.func, ast.Name) or not c.args:
+            continue
+        imp = m.imports.get(c.func.id)
+        target = None
+        if imp and imp[1] and imp[0].startswith('openmdao.'):
+            rel = imp[0].replace('.', '/') + '.py'
+            if repo.exists(rel):
+                target = repo.module(rel).funcs.get(imp[1])
+        elif c.func.id in m.funcs:
+            target = m.funcs[c.func.id]
+        if target is not None and any(astx.mentions(a, 'filename', 'metadata_filename') for a in c.args):
+            out[target.ident] = target
+    return list(out.values())
+
+
+def _volatile_uses(e, header_names, tainted):
+    """Sub-expressions of *e* whose value depends on file bytes/sizes that change while a commit is written."""
+    bad = []
+    for n in astx.walk(e):
+        if isinstance(n, ast.Name) and n.id in tainted and isinstance(n.ctx, ast.Load):
+            bad.append(n)
+        if isinstance(n, ast.Name) and n.id in header_names and isinstance(n.ctx, ast.Load):
+            par = getattr(n, '_parent', None)
+            ok = False
+            if isinstance(par, ast.Subscript) and par.value is n:
+                sl = par.slice
+                if isinstance(sl, ast.Slice) and sl.step is None and \
+                        (sl.lower is None or (isinstance(sl.lower, ast.Constant) and isinstance(sl.lower.value, int)
+                                              and 0 <= sl.lower.value)) and \
+                        isinstance(sl.upper, ast.Constant) and isinstance(sl.upper.value, int) and \
+                        0 <= sl.upper.value <= MAGIC_LEN:
+                    ok = True
+                elif isinstance(sl, ast.Constant) and isinstance(sl.value, int) and 0 <= sl.value < MAGIC_LEN:
+                    ok = True
+            elif isinstance(par, ast.Attribute) and par.attr == 'startswith' and \
+                    isinstance(getattr(par, '_parent', None), ast.Call) and len(par._parent.args) == 1 and \
+                    isinstance(par._parent.args[0], ast.Constant) and \
+                    isinstance(par._parent.args[0].value, bytes) and len(par._parent.args[0].value) <= MAGIC_LEN:
+                ok = True
+            elif isinstance(par, ast.Call) and astx.callee_attr(par) == 'len':
+                ok = True
+            if not ok:
+                bad.append(par if par is not None else n)
+    return bad
+
+
+@rule('C18.precheck', floor=3)
+def precheck(repo, out):
+    """Validity checks run before sqlite opens the file reject only on facts that hold during a commit."""
+    for fn in _prechecks(repo):
+        ctx = Ctx(fn)
+        g = ctx.g
+        header_names, sizes, tainted = set(), set(), set()
+        stmts = list(astx.walk_stmts(fn.node.body))
+        for _ in range(3):      # small fixpoint over straight assignments
+            for st in stmts:
+                if not isinstance(st, (ast.Assign, ast.AnnAssign, ast.AugAssign)) or getattr(st, 'value', None) is None:
+                    continue
+                tg = [t.id for t in astx.assigned_targets(st) if isinstance(t, ast.Name)]
+                v = st.value
+                if isinstance(v, ast.Call) and astx.callee_attr(v) in ('read', 'read_bytes', 'readinto', 'pread'):
+                    header_names.update(tg)
+                elif any(isinstance(c, ast.Call) and astx.callee_attr(c) in _SIZE_FUNCS + ('stat', 'fstat')
+                         for c in astx.calls(v)) or astx.mentions(v, 'st_size'):
+                    sizes.update(tg)
+                elif _volatile_uses(v, header_names, tainted):
+                    tainted.update(tg)
+        raises = [n for n in g.nodes if n.kind == 'stmt' and isinstance(n.ast, ast.Raise)]
+        for rn in raises:
+            guards = [a for a in astx.ancestors(rn.ast) if isinstance(a, (ast.If, ast.While))]
+            verdict = None
+            for gd in guards:
+                t = gd.test
+                vol = _volatile_uses(t, header_names, tainted)
+                if vol:
+                    verdict = ('bad', f'rejects the file on `{astx.src(t)}`, which reads header fields beyond the '
+                               f'{MAGIC_LEN}-byte magic string (`{astx.src(vol[0])}`): page 1 is rewritten first '
+                               'during a commit, so a recording whose writer died mid-commit is refused before '
+                               'sqlite can roll it back from its journal')
+                    break
+                size_refs = [c for c in astx.calls(t) if astx.callee_attr(c) in _SIZE_FUNCS] + \
+                            [n for n in astx.walk(t) if isinstance(n, ast.Name) and n.id in sizes] + \
+                            [n for n in astx.walk(t) if isinstance(n, ast.Attribute) and n.attr == 'st_size']
+                if size_refs:
+                    ct = astx.canon(t)
+                    okc = isinstance(ct, ast.Compare) and len(ct.ops) == 1 and \
+                        isinstance(ct.ops[0], (ast.Lt, ast.LtE)) and \
+                        isinstance(ct.comparators[0], ast.Constant) and isinstance(ct.comparators[0].value, int) and \
+                        not any(isinstance(n, (ast.BinOp, ast.Constant)) and
+                                not (isinstance(n, ast.Constant) and isinstance(n.value, str))
+                                for n in astx.walk(ct.left))
+                    if okc and ct.comparators[0].value <= MIN_HEADER:
+                        continue
+                    if okc:
+                        verdict = verdict or ('unsure', f'size threshold {ct.comparators[0].value} exceeds the '
+                                              f'{MIN_HEADER}-byte header')
+                    elif any(isinstance(n, ast.Name) and (n.id in tainted or n.id in header_names)
+                             for n in astx.walk(t)):
+                        verdict = ('bad', f'rejects the file on `{astx.src(t)}`: the file size is compared with a '
+                                   'value read from the file; the two disagree while a commit is being written')
+                        break
+                    else:
+                        verdict = verdict or ('unsure', f'file-size test `{astx.src(t)}` not recognised')
+                    continue
+                known = any(astx.callee_attr(c) in _EXIST_FUNCS for c in astx.calls(t))
+                if not known and not astx.mentions(t, *header_names):
+                    verdict = verdict or ('unsure', f'rejection test `{astx.src(t)}` not in the analysed vocabulary')
+            if not guards:
+                verdict = verdict or ('unsure', 'unconditional raise')
+            if verdict is None:
+                out.ok(fn, rn.ast, 'rejection depends only on existence, a size below the header length or the '
+                       'constant magic string')
+            elif verdict[0] == 'bad':
+                out.bad(fn, rn.ast, verdict[1], key='precheck-volatile-header')
+            else:
+                out.unsure(fn, rn.ast, verdict[1])
+
+
 # --------------------------------------------------------------------------- C18.writers
 @rule('C18.writers', floor=1)
 def writers(repo, out):
@@ -1679,6 +1814,22 @@ selftest(
                "            cur.execute(\"INSERT INTO global_iterations",
                "        with self.connection as conn:\n            cur = conn.cursor()\n"
                "            cur.execute(\"INSERT INTO global_iterations") + _HELPER_AT)]),
+    # ---- precheck
+    Mutant('precheck-truncation-test', RU,
+           "        raise IOError('File does not contain a valid sqlite database ({0})'.format(filename))\n\n\ndef check_path",
+           "        raise IOError('File does not contain a valid sqlite database ({0})'.format(filename))\n\n"
+           "    page_size = int.from_bytes(header[16:18], 'big')\n"
+           "    if page_size == 1:\n        page_size = 65536\n"
+           "    num_pages = int.from_bytes(header[28:32], 'big')\n"
+           "    if os.path.getsize(filename) < page_size * num_pages:\n"
+           "        raise IOError('File contains a truncated sqlite database ({0})'.format(filename))\n\n\ndef check_path",
+           'C18.precheck'),
+    Mutant('precheck-size-multiple-of-page', RU, "    if header[:16] != b'SQLite format 3\\x00':",
+           "    if os.path.getsize(filename) % (int.from_bytes(header[16:18], 'big') or 65536):\n"
+           "        raise IOError('incomplete file')\n"
+           "    if header[:16] != b'SQLite format 3\\x00':", 'C18.precheck'),
+    Mutant('precheck-change-counter', RU, "    if header[:16] != b'SQLite format 3\\x00':",
+           "    if header[:16] != b'SQLite format 3\\x00' or header[24:28] != header[92:96]:", 'C18.precheck'),
     # ---- writers
     Mutant('writers-reader-repairs-file', RDR, "        cur.execute('select * from global_iterations')\n",
            "        cur.execute('DELETE FROM global_iterations WHERE rowid IS NULL')\n"
@@ -1745,6 +1896,12 @@ selftest(
                 "                self._insert_global_iteration(source=source_solver, record_type='solver', cursor=c)")]),
     Twin('twin-whole-pair-helper', REC, _DRV_WHOLE_OLD, _DRV_WHOLE_CALL,
          also=[(REC, _HELPER_AT, _WHOLE_HELPER + _HELPER_AT)]),
+    Twin('twin-precheck-startswith', RU, "    if header[:16] != b'SQLite format 3\\x00':",
+         "    if not header.startswith(b'SQLite format 3\\x00'):"),
+    Twin('twin-precheck-size-local', RU, "    if os.path.getsize(filename) < 100:",
+         "    nbytes = os.path.getsize(filename)\n    if 100 > nbytes:"),
+    Twin('twin-precheck-exists', RU, "    if not os.path.isfile(filename):",
+         "    if not (os.path.exists(filename) and os.path.isfile(filename)):"),
     Twin('twin-select-between', REC, _SYS_SRC,
          _SYS_SRC + "                c.execute(\"SELECT count(*) FROM system_iterations\")\n\n"),
 )
